@@ -499,6 +499,7 @@ def plan_C19(ctx):
     e2_fst_cache(ctx, n_of(ctx, 40, 400))
     run_family(ctx, "fault_read", n_of(ctx, 150, 3000), perfile=n_of(ctx, 15, 40))
     run_family(ctx, "fault_read_big", n_of(ctx, 8, 120), perfile=1)
+    run_family(ctx, "fault_dv_partial", n_of(ctx, 512, 2048), perfile=64)                           # every read of a chunk load as the failure point, both directions
     run_family(ctx, "fault_transient", n_of(ctx, 48, 480), perfile=6)                               # one failing read, then healthy storage
     run_family(ctx, "fault_transient", n_of(ctx, 24, 240), perfile=6, seed_off=1, env_extra={"VERIF_INLINE": "1"})   # same goroutine: same pooled scratch
     require_cov(ctx, "tag:fst_failed")
